@@ -63,3 +63,44 @@ def hedge(name: str, x: F):
     if name == "seldom":
         return (math.sqrt(x / 2) if x <= F(1, 2) else 1 - math.sqrt((1 - x) / 2)), abs(x - F(1, 2))
     raise ValueError(name)
+
+
+# ---------------------------------------------------------------------------------------------------
+def weighted(cls, type_, acts, aggr, term_value, tsukamoto_value, term_type):
+    """mirror of Defuzzifiers.Weighted on exact Fractions.  acts: list of (name, degree Fraction).
+    term_value(name, w) / tsukamoto_value(name, w) -> Fraction | float; term_type(name) -> kind string.
+    returns ("raises", None) or ("value", number) with number possibly nan"""
+    def nn(d):
+        if isinstance(d, float):
+            return F(0) if (math.isnan(d) or d == -math.inf) else F(1) if d == math.inf else F(d)
+        return d
+
+    types = {term_type(n) for n, _ in acts}
+    ty = type_
+    if ty == "Automatic":
+        ty = "Automatic" if not types else (types.pop() if len(types) == 1 else "error")
+    if ty == "error":
+        return "raises", None
+    if ty == "Tsukamoto" and any(term_type(n) != "Tsukamoto" for n, _ in acts):
+        return "raises", None
+    groups = []
+    op = "UnboundedSum" if aggr == "none" else aggr
+    for n, d in acts:
+        d = nn(d)
+        for g in groups:
+            if g[0] == n:
+                g[1] = nn(norm(op, g[1], d)[0])
+                break
+        else:
+            groups.append([n, d])
+    if not acts:
+        return "value", math.nan
+    ws, wt = F(0), F(0)
+    for n, w in groups:
+        if w != 0:
+            z = tsukamoto_value(n, w) if ty == "Tsukamoto" else term_value(n, w)
+            ws = ws + w * z
+        wt += w
+    if wt == 0:
+        return "value", math.nan
+    return "value", ws / wt if cls == "WeightedAverage" else ws
